@@ -57,7 +57,7 @@ def future_poll(ctx):
         bh = getattr(ex, 'benign_havoc', None)
         if not (bh is not None and bh.search('await:' + v.ty)):
             st.env['havoc'] = st.env.get('havoc', ()) + ('await:' + v.ty[:40],)
-        return mk_poll_ready(ex, ex.fresh(st, out_ty, 'aw'))
+        return mk_poll_ready(ex, ex.fresh_result_ok(st, out_ty, 'aw'))
     raise Unsupported('poll on %r' % (v,))
 
 
@@ -589,3 +589,235 @@ def chars_count(ctx):
     while len(terms) > 1:
         terms = [terms[k] + terms[k + 1] if k + 1 < len(terms) else terms[k] for k in range(0, len(terms), 2)]
     return Int(simp(z3.ZeroExt(52, terms[0])), 64, False)
+
+
+# --------------------------------------------------------------------------- Duration / atomics / Arc::get_mut
+
+def mk_duration(secs_t, nanos_t=None):
+    return Agg('Duration', {0: Int(secs_t, 64, False), 1: Int(nanos_t if nanos_t is not None else BV(0, 32), 32, False)})
+
+
+def _dur(ctx, v):
+    v = ctx.ex.deref(ctx.st, v)
+    if isinstance(v, Opaque):
+        return mk_duration(z3.BitVec(fresh_name('dsecs'), 64), BV(0, 32))
+    return v
+
+
+@contract(r'^(?:std::time::)?Duration::from_secs$')
+def duration_from_secs(ctx):
+    return mk_duration(ctx.args[0].t)
+
+
+@contract(r'^(?:std::time::)?Duration::from_millis$')
+def duration_from_millis(ctx):
+    t = ctx.args[0].t
+    return mk_duration(simp(z3.UDiv(t, BV(1000, 64))), simp(z3.Extract(31, 0, z3.URem(t, BV(1000, 64))) * BV(1000000, 32)))
+
+
+@contract(r'^(?:std::time::)?Duration::is_zero$')
+def duration_is_zero(ctx):
+    d = _dur(ctx, ctx.args[0])
+    return Bool(simp(z3.And(d.fields[0].t == BV(0, 64), d.fields[1].t == BV(0, 32))))
+
+
+@contract(r'^(?:std::time::)?Duration::as_millis$')
+def duration_as_millis(ctx):
+    d = _dur(ctx, ctx.args[0])
+    return Int(simp(z3.ZeroExt(64, d.fields[0].t) * BV(1000, 128) + z3.ZeroExt(96, z3.UDiv(d.fields[1].t, BV(1000000, 32)))), 128, False)
+
+
+@contract(r'^(?:std::time::)?Duration::as_secs$')
+def duration_as_secs(ctx):
+    return _dur(ctx, ctx.args[0]).fields[0]
+
+
+@contract(r'^(?:std::time::)?Duration::as_nanos$')
+def duration_as_nanos(ctx):
+    d = _dur(ctx, ctx.args[0])
+    return Int(simp(z3.ZeroExt(64, d.fields[0].t) * BV(1000000000, 128) + z3.ZeroExt(96, d.fields[1].t)), 128, False)
+
+
+def _atomic(ctx, ref, bits):
+    ex, st = ctx.ex, ctx.st
+    v = ex.load(st, ref.cell, ref.path)
+    if isinstance(v, Opaque) or v is None:
+        v = Agg('Atomic', {0: Int(z3.BitVec(fresh_name('atomic'), bits), bits, False)})
+        ex.store(st, ref.cell, ref.path, v)
+    return v
+
+
+def _atomic_bits(callee):
+    m = re.search(r'Atomic(U|I)(8|16|32|64|size)', callee)
+    if not m:
+        return 64
+    return 64 if m.group(2) == 'size' else int(m.group(2))
+
+
+@contract(r'^(?:std::sync::atomic::)?Atomic(?:U|I)(?:8|16|32|64|size)::new$')
+def atomic_new(ctx):
+    return Agg('Atomic', {0: ctx.args[0]})
+
+
+@contract(r'^(?:std::sync::atomic::)?Atomic(?:U|I)(?:8|16|32|64|size)::load$')
+def atomic_load(ctx):
+    return _atomic(ctx, ctx.args[0], _atomic_bits(ctx.callee)).fields[0]
+
+
+@contract(r'^(?:std::sync::atomic::)?Atomic(?:U|I)(?:8|16|32|64|size)::store$')
+def atomic_store(ctx):
+    r = ctx.args[0]
+    _atomic(ctx, r, _atomic_bits(ctx.callee))
+    ctx.ex.store(ctx.st, r.cell, r.path, Agg('Atomic', {0: ctx.args[1]}))
+    ctx.st.trace.append(('atomic.store',))
+    return UNIT
+
+
+@contract(r'^(?:std::sync::atomic::)?Atomic(?:U|I)(?:8|16|32|64|size)::fetch_add$')
+def atomic_fetch_add(ctx):
+    r = ctx.args[0]
+    a = _atomic(ctx, r, _atomic_bits(ctx.callee))
+    old = a.fields[0]
+    ctx.ex.store(ctx.st, r.cell, r.path, Agg('Atomic', {0: Int(simp(old.t + ctx.args[1].t), old.bits, old.signed)}))
+    ctx.st.trace.append(('atomic.fetch_add', r.cell, r.path))
+    return old
+
+
+@contract(r'^Arc::<.*>::get_mut$|^Rc::<.*>::get_mut$')
+def arc_get_mut(ctx):
+    """Arc::get_mut: Some(&mut T) (unique) or None; uniqueness is a scheduling fact the sequential model cannot see,
+    so both outcomes are kept only when `arc_get_mut_may_fail` is set; by default the Arc is unique (start-up code)"""
+    ex, st = ctx.ex, ctx.st
+    a = ctx.args[0]
+    inner = ex.load(st, a.cell, a.path)
+    if isinstance(inner, Opaque):
+        nv = Ref(st.alloc(Opaque(deref_ty(inner.ty) or 'T', inner.tag)), ())
+        ex.store(st, a.cell, a.path, nv)
+        inner = nv
+    if not isinstance(inner, Ref):
+        return NotImplemented
+    return mk_option(ex, inner)
+
+
+@contract(r'^Arc::<.*>::make_mut$')
+def arc_make_mut(ctx):
+    ex, st = ctx.ex, ctx.st
+    a = ctx.args[0]
+    inner = ex.load(st, a.cell, a.path)
+    if isinstance(inner, Opaque):
+        nv = Ref(st.alloc(Opaque(deref_ty(inner.ty) or 'T', inner.tag)), ())
+        ex.store(st, a.cell, a.path, nv)
+        inner = nv
+    if isinstance(inner, Ref):
+        return inner
+    return NotImplemented
+
+
+# --------------------------------------------------------------------------- lazy iterator adaptors (bytes/iter/zip/fold/all/any)
+
+def _as_lazy_seq(ctx, v):
+    """view an iterator-ish value as (len term, at(i)->Value) or None"""
+    ex, st = ctx.ex, ctx.st
+    v = ex.deref1(st, v) if isinstance(v, Ref) else v
+    if isinstance(v, Agg) and v.name == 'LazyIter':
+        return v.fields[0]
+    if isinstance(v, Agg) and v.name == 'slice::Iter':
+        src, loc = seq_loc(ex, st, v.fields[0])
+        if isinstance(src, Bytes):
+            return SeqV(lambda i, src=src: Int(simp(src.at(i)), 8, False), src.len, None, 'u8', 'lazy')
+        if isinstance(src, SeqV):
+            return SeqV(lambda i, loc=loc: Ref(loc[0], loc[1] + (('i', i),), False), src.len, None, src.elem_ty, 'lazy')
+    return None
+
+
+def _lazy(seq):
+    return Agg('LazyIter', {0: seq})
+
+
+@contract(r'^core::str::<impl str>::bytes$|^core::slice::<impl \[u8\]>::iter$|^<&\[u8\] as IntoIterator>::into_iter$')
+def bytes_iter(ctx):
+    b = BufLoc(ctx.ex, ctx.st, ctx.args[0]).val
+    byref = 'iter' in ctx.callee
+    if byref:
+        cell = ctx.st.alloc(b)
+        return _lazy(SeqV(lambda i, cell=cell: Ref(cell, (('i', i),), False), b.len, None, '&u8', 'lazy'))
+    return _lazy(SeqV(lambda i, b=b: Int(simp(b.at(i)), 8, False), b.len, None, 'u8', 'lazy'))
+
+
+@contract(r' as Iterator>::zip::<.*>$')
+def iter_zip(ctx):
+    a = _as_lazy_seq(ctx, ctx.args[0])
+    b = _as_lazy_seq(ctx, ctx.args[1])
+    if a is None or b is None:
+        return NotImplemented
+    ite = ctx.ex.ite
+    ln = simp(z3.If(z3.ULE(a.len, b.len), a.len, b.len))
+    return _lazy(SeqV(lambda i, a=a, b=b: Agg('tuple', {0: a.at(i, merge=ite), 1: b.at(i, merge=ite)}), ln, None, 'tuple', 'lazy'))
+
+
+@contract(r' as Iterator>::(?:copied|cloned)$')
+def iter_copied(ctx):
+    a = _as_lazy_seq(ctx, ctx.args[0])
+    if a is None:
+        return NotImplemented
+    ex, st = ctx.ex, ctx.st
+    return _lazy(SeqV(lambda i, a=a: ex.deref1(st, a.at(i, merge=ex.ite)), a.len, None, None, 'lazy'))
+
+
+def _iter_bound(ex):
+    return getattr(ex, 'iter_bound', None) or getattr(ex, 'eq_bound', None) or 16
+
+
+@contract(r' as Iterator>::fold::<.*>$')
+def iter_fold(ctx):
+    ex, st = ctx.ex, ctx.st
+    seq = _as_lazy_seq(ctx, ctx.args[0])
+    if seq is None:
+        return NotImplemented
+    clo = ctx.args[2]
+    body = ex.db.closure_fn(clo.name) if isinstance(clo, Agg) else None
+    if body is None:
+        return NotImplemented
+    bound = _iter_bound(ex)
+    ex.assume(st, z3.ULE(seq.len, BV(bound, 64)))
+    st.env.setdefault('bounds_used', []).append('Iterator::fold unrolled %d times' % bound)
+    acc = ctx.args[1]
+    ccell = st.alloc(clo)
+    for i in range(bound):
+        nxt = ex.call_sub(st, body, [Ref(ccell, ()), acc, seq.at(BV(i, 64), merge=ex.ite)])
+        if nxt is None:
+            return NotImplemented
+        acc = ex.ite(z3.ULT(BV(i, 64), seq.len), nxt, acc)
+    return acc
+
+
+def _iter_all_any(ctx, is_all):
+    ex, st = ctx.ex, ctx.st
+    seq = _as_lazy_seq(ctx, ctx.args[0])
+    if seq is None:
+        return NotImplemented
+    clo = ctx.args[1]
+    body = ex.db.closure_fn(clo.name) if isinstance(clo, Agg) else None
+    if body is None:
+        return NotImplemented
+    bound = _iter_bound(ex)
+    ex.assume(st, z3.ULE(seq.len, BV(bound, 64)))
+    ccell = st.alloc(clo)
+    terms = []
+    for i in range(bound):
+        r = ex.call_sub_merge(st, body, [Ref(ccell, ()), seq.at(BV(i, 64), merge=ex.ite)])
+        if r is None:
+            return NotImplemented
+        inside = z3.ULT(BV(i, 64), seq.len)
+        terms.append(z3.Implies(inside, r.t) if is_all else z3.And(inside, r.t))
+    return Bool(simp(z3.And(terms) if is_all else z3.Or(terms)))
+
+
+@contract(r' as Iterator>::all::<.*>$')
+def iter_all(ctx):
+    return _iter_all_any(ctx, True)
+
+
+@contract(r' as Iterator>::any::<.*>$')
+def iter_any(ctx):
+    return _iter_all_any(ctx, False)
